@@ -71,6 +71,7 @@ def deviations(ctx):
         j["cfg"] = j["cfg"].replace("Dev = {}", "Dev = " + dev)
         j["expect_violation"] = True
         jobs.append((j, inv))
+    jobs.append((dict(module="Sandbox", cfg=(scfg % '{"SkipWhenUnsupported"}').replace('"badyaml"}', '"badyaml", "seccompdenied"}'), name="dev_sandbox_skip", expect_violation=True), "ExecOnlyUnderFilter"))
     jobs.append((dict(module="Sandbox", cfg=(scfg % '{"ZeroMeansUnset"}').replace("ExecOnlyUnderFilter", "PolicyAsWritten ExecOnlyUnderFilter"), name="dev_sandbox_zero", expect_violation=True), "PolicyAsWritten"))
     jobs.append((dict(module="TableGenMC", cfg='CONSTANTS\n  Dev = {"X64Filter"}\n  OutFile = "unused"\nSPECIFICATION Spec\nINVARIANTS BuildersIdealInv GeneratedUnambiguousInv\nCHECK_DEADLOCK FALSE\n',
                       name="dev_tablegen_x64", expect_violation=True, workers=1), ("BuildersIdealInv", "GeneratedUnambiguousInv")))
